@@ -233,4 +233,20 @@ PLAN = {
             {"name": "hostile", "flavour": "native", "shards": 4, "shards_thorough": 16},
         ],
     },
+    "C09": {
+        "level": "exploration",
+        "rule": "one case = one PayloadWriter lifetime: limit (0, tiny, 8192, 20000, or message length -3..+40), framing mode, global "
+                "prefix (none / empty / short / long), 0-3 global tags, key (name 0-300 bytes, 0-3 tags incl. bare tags) and 1-8 "
+                "operations from {write_counter, write_gauge, write_histogram/distribution with 0-3000 values incl. NaN/1e300, drain}, "
+                "followed by a final drain; every payload is decoded by an independent DogStatsD parser and checked: header == byte "
+                "length, body <= limit, exactly one message, (prefix.)name, values in order at round-trip precision, tags global-then-own, "
+                "timestamp/sample rate, emitted + dropped == input per write and per lifetime, counters' fit decision exact. "
+                "distinct = hash of configuration and operation sequence.",
+        "assumptions": ["names/tags from a delimiter-free alphabet (the format has no escaping; sanitisation is not claimed)",
+                        "fit decisions are checked exactly for counters only (integer formatting is unambiguous without sharing the float formatter)"],
+        "legs": [
+            {"name": "native", "flavour": "native", "shards": 4, "shards_thorough": 16},
+            {"name": "asan", "flavour": "asan", "shards": 2, "shards_thorough": 8, "thorough_only": True},
+        ],
+    },
 }
